@@ -89,7 +89,7 @@ func tryReplay(p *Prog, cfg *PropConfig, r *SolveResult, root, repo, scratch str
 		if !strings.HasPrefix(r.Obl.Name, rs.Match) {
 			continue
 		}
-		if r.Values == "" {
+		if r.Values == "" && r.Status == "sat" {
 			evalScalars(r)
 		}
 		model := valueMap(r.Values)
